@@ -33,8 +33,55 @@ let rec show_res (r : res) : string = match r with
   | RNotFound c -> "NotFound(" ^ str c ^ ")"
   | RStuck -> "Stuck"
 
+(* ---- engine *)
+exception Need of string
+let nat_of_int (i : int) : nat = let rec go k acc = if k = 0 then acc else go (k-1) (S acc) in go i O
+
+let show_perr (e : perr) : string = match e with
+  | EMissing t -> "Missing(" ^ str t ^ ")"
+  | EBadField (t, c) -> "BadField(" ^ str t ^ "," ^ hex c ^ ")"
+  | EDuplicate t -> "Duplicate(" ^ str t ^ ")"
+  | EUnparsed -> "Unparsed"
+  | EFailed m -> "Failed(" ^ hex m ^ ")"
+
+let show_item (it : item) : string =
+  str it.i_ty ^ "|" ^ (match it.i_letter with None -> "_" | Some l -> "=" ^ str l) ^ "|" ^ str it.i_tag ^ "|" ^ hex it.i_content
+
+let show_outcome (o : outcome) : string = match o with
+  | Accept its -> "ACCEPT\t" ^ String.concat ";" (List.map show_item its)
+  | Reject e -> "REJECT\t" ^ show_perr e
+  | OutOfFuel -> "OUTOFFUEL"
+  | Stuck -> "STUCK"
+
+(* table: ty|letter|hexcontent|0/1;...   letter: _ = none, =X = Some X *)
+let parse_table (t : string) : (string, bool) Hashtbl.t =
+  let h = Hashtbl.create 64 in
+  if t <> "" then
+    List.iter (fun e ->
+      match String.split_on_char '|' e with
+      | [ty; l; c; b] -> Hashtbl.replace h (ty ^ "|" ^ l ^ "|" ^ c) (b = "1")
+      | _ -> ()) (String.split_on_char ';' t);
+  h
+
+let fparse_of (h : (string, bool) Hashtbl.t) : bytes -> bytes option -> bytes -> bool =
+  fun ty l c ->
+    let k = str ty ^ "|" ^ (match l with None -> "_" | Some x -> "=" ^ str x) ^ "|" ^ hex c in
+    match Hashtbl.find_opt h k with
+    | Some b -> b
+    | None -> raise (Need k)
+
 let run (cols : string array) : string =
   match cols.(0) with
+  | "msg" ->
+      let l = layout_of (unhex cols.(1)) in
+      let text = unhex cols.(2) in
+      let h = parse_table (if Array.length cols > 3 then cols.(3) else "") in
+      let fuel = nat_of_int (4 * List.length text + 2000) in
+      (try show_outcome (brun (fparse_of h) fuel l text) with Need k -> "NEED\t" ^ k)
+  | "extract" ->
+      (match extract_field_content (unhex cols.(1)) (unhex cols.(2)) with
+       | None -> "NONE"
+       | Some (c, n) -> "SOME\t" ^ hex c ^ "\t" ^ string_of_int (let rec go (x : nat) = match x with O -> 0 | S y -> 1 + go y in go n))
   | "d_typed" -> show_res (parse_typed gen_tables (unhex cols.(1)) (unhex cols.(2)))
   | "d_auto" -> show_res (parse_auto gen_tables (unhex cols.(1)))
   | "d_pparse" -> show_res (plugin_parse gen_tables (unhex cols.(1)))
